@@ -44,6 +44,7 @@ class SimCrash(BaseException):
 class Sim:
     def __init__(self):
         self.cv = threading.Condition()
+        self.cb_lock = threading.RLock()
         self.root = None
         self.reset(None)
 
@@ -60,6 +61,7 @@ class Sim:
             self.open_deletes = False
             self.phase_of: dict[int, str] = {}
             self.entry_parked = 0
+            self.bg_started = 0
             self.done: set[int] = set()
             self.started: list[int] = []  # steps whose temp dir was created (a real save began)
             self.passed: list[str] = []  # gate names passed, first arrival only
@@ -73,14 +75,18 @@ class Sim:
 
     # -- gates (called from arbitrary threads through the audit hook) -----------
     def gate(self, name: str, blocking: bool = True):
-        cb = None
-        with self.cv:
-            first = name not in self.seen
-            if first:
-                self.seen.add(name)
-                cb = self.on_gate
-        if first and cb is not None:
-            cb(name)
+        # the callback (a snapshot = the kill instant) must be atomic with respect to every
+        # other thread that reaches a gate: e.g. parallel deleter workers arriving at the same
+        # gate wait here until the snapshot of the directory is complete
+        with self.cb_lock:
+            cb = None
+            with self.cv:
+                first = name not in self.seen
+                if first:
+                    self.seen.add(name)
+                    cb = self.on_gate
+            if first and cb is not None:
+                cb(name)
         with self.cv:
             if blocking and self.block and not self._is_open(name):
                 self.parked.add(name)
@@ -229,6 +235,8 @@ def install():
                             sim.cv.notify_all()
 
             self.run = wrapped
+            with sim.cv:
+                sim.bg_started += 1  # counted in the starting thread: no race with the new thread
         return _start(self, *a, **k)
 
     threading.Thread.start = start
